@@ -16,6 +16,7 @@ PROPS['C03'] = dict(
         D('MCMessageImpl', 'MCMessageImpl_mut_noguard.cfg', expect='fail', violates='NotBoth'),
     ],
     traces={'MessageTrace': dict(module='MessageTrace', cfg='MessageTrace.cfg')},
+    selftests=[('MessageTrace', 'flip', dict(e='op', field='res'))],
     rule='runs = all sequential histories of length N over {Ack,Nack,RdAck,RdNack} on 4 kinds of message (new, zero-value, copies of settled '
          'messages), random concurrent histories of 2..16 goroutines, and forced overlaps (one caller parked inside the critical section); '
          'non-trivial = history contains at least two settlement calls (sequential) / both an Ack and a Nack (concurrent) / the gate was reached (forced)',
@@ -34,6 +35,7 @@ PROPS['C02'] = dict(
         D('RouterHandler', 'MCRouterHandler_mut_nonack.cfg', expect='fail'),
     ],
     traces={'RouterHandlerTrace': dict(module='RouterHandlerTrace', cfg='RouterHandlerTrace.cfg')},
+    selftests=[('RouterHandlerTrace', 'set', dict(e='pcall', field='sample', value='ack')), ('RouterHandlerTrace', 'drop', dict(e='hstart'))],
     rule='runs = every single-message case of {handler settles itself: no/ack/nack} x {chain ok/err/panic(value|error|nil)} x {0,1,2 outputs} x '
          '{publisher accept/error/panic} x {publisher handler, no-publisher handler} x {no prefix, pass-through, output-appending middleware}, plus '
          'random triples of such messages in flight concurrently on one handler with one of them parked at a router hook point; distinct = distinct '
@@ -119,7 +121,13 @@ PROPS['C19'] = dict(
 _GC = dict(
     level='model_checking',
     design=[],
-    traces={'GoChannelTrace': dict(module='GoChannelTrace', cfg='GoChannelTrace.cfg', timeout=1800)},
+    traces={'GoChannelTrace': dict(module='GoChannelTrace', cfg='GoChannelTrace.cfg', timeout=1800),
+            'GoChannelImplTrace_volatile': dict(module='GoChannelImplTrace', cfg='GoChannelImplTrace_volatile.cfg', timeout=1800),
+            'GoChannelImplTrace_persistent': dict(module='GoChannelImplTrace', cfg='GoChannelImplTrace_persistent.cfg', timeout=1800),
+            'GoChannelImplTrace_blocking': dict(module='GoChannelImplTrace', cfg='GoChannelImplTrace_blocking.cfg', timeout=1800)},
+    selftests=[('GoChannelImplTrace_volatile', 'drop', dict(e='hook', point='gochannel.publish.rlocked')),
+               ('GoChannelImplTrace_blocking', 'drop', dict(e='hook', point='gochannel.send.locked')),
+               ('GoChannelTrace', 'drop', dict(e='ack'))],
     exhaustive=False,
     assumptions=['linearization points of Publish and Subscribe are not observed; TLC searches them (silent steps)',
                  'quiescence is declared by the harness after all calls returned and no event was recorded for 60 ms (bounded wait 5 s)',
@@ -147,6 +155,7 @@ PROPS['C06'] = dict(
             D('RouterLifecycle', 'MCRouterLifecycle_mut_handleclose.cfg', expect='fail', violates='SubClosedAtEnd'),
             D('RouterLifecycle', 'MCRouterLifecycle_mut_secondclose.cfg', expect='fail', violates='Graceful')],
     traces={'RouterCloseTrace': dict(module='RouterCloseTrace', cfg='RouterCloseTrace.cfg')},
+    selftests=[('RouterCloseTrace', 'drop', dict(e='hend'))],
     rule='runs = message m1 parked at each point of its path (inside the subscriber decorator, received-not-dispatched, dispatched-not-started, inside the handler, '
          'before publish, before settlement) when Close arrives x {scripted subscriber, GoChannel} x closers {1 (2, 8)} x handlers {1 (2, 3)}, the received-then-held '
          'schedule of the concurrent-waits defect, concurrent and repeated Close, handlers outliving CloseTimeout (with a second Close while the handler still runs) and '
@@ -176,6 +185,7 @@ PROPS['C01'] = dict(
             D('Pipeline', 'MCPipeline_mut_ackfirst.cfg', expect='fail', violates='NoLoss'),
             D('Pipeline', 'MCPipeline_mut_drop.cfg', expect='fail', violates='NoLoss')],
     traces={'PipelineTrace': dict(module='PipelineTrace', cfg='PipelineTrace.cfg')},
+    selftests=[('PipelineTrace', 'drop', dict(e='sink'))],
     rule='runs = pipelines of 1..4 stages (one Router per stage or all on one Router; optional fan-out stage emitting two outputs, optional fan-in of two source topics) on a real '
          'GoChannel (buffer 0..2, blocking on/off) with scripted faults {handler error, handler panic, publisher error before / after acceptance, publisher panic} on the k-th call '
          'of a stage: no fault on all shapes, every single fault on K<=2 (3), pairs of faults (sampled / all), long random fault sequences; non-trivial = a fault was really injected',
